@@ -176,6 +176,30 @@ def exempt_files(c, snap):
     return out
 
 
+def acceptable(L, c, dn, f, data, cands=None):
+    """is `data` the recorded version of f?  Block-wise: a block with a recorded hash (BLK, or REP = provisional hash
+    of the file it was taken for a copy of) must hash to it; a block without one must equal that block of a version
+    the lab wrote under this identity."""
+    if data is None or len(data) != f.size:
+        return False
+    if cands is None:
+        cands = P.find_version(L, c, dn, f)
+    bs = c.block_size
+    for i, (st, pos, h) in enumerate(f.blocks):
+        blk = data[i * bs:(i + 1) * bs]
+        in_cand = any(cd[i * bs:(i + 1) * bs] == blk for cd in cands)
+        if st == C.BLK:
+            if P.block_hash(c, pos, blk) != h:
+                return False
+        elif st == C.REP:
+            if P.block_hash(c, pos, blk) != h and not in_cand:
+                return False
+        else:
+            if not in_cand:
+                return False
+    return True
+
+
 def fix_oracle(L, c, res, before, flt, where, exempt=()):
     """returns list of violation dicts"""
     v = []
@@ -205,7 +229,7 @@ def fix_oracle(L, c, res, before, flt, where, exempt=()):
             e = after.get(rel)
             reported = (dn, f.sub) in unrec
             if e is not None and e[0] == "f":
-                ok_bytes = e[3] in cands
+                ok_bytes = e[3] in cands or acceptable(L, c, dn, f, e[3])
                 if not ok_bytes and not reported and rel in exempt:
                     pass
                 elif not ok_bytes and not reported:
